@@ -605,6 +605,26 @@ pub fn run(out: &mut Out, thorough: bool, seed: u64) {
         twin_pols.push(CA::Or(vec![(1, key(0)), (1, CA::Or(vec![(1, bx.clone()), (1, by.clone())]))]));
         twin_pols.push(CA::Thresh(2, vec![key(0), bx, by]));
     }
+    // n-ary and / or built through the public enum (the parser insists on exactly two children):
+    // today every compiler entry point refuses them; should one start accepting them, all
+    // branches must survive in the output
+    {
+        let or3 = CA::Or(vec![(1, key(1)), (1, key(2)), (1, key(3))]);
+        let or3w = CA::Or(vec![(3, key(1)), (1, key(2)), (2, CA::And(vec![key(3), CA::Leaf(A::Older(10))]))]);
+        let and3 = CA::And(vec![key(1), key(2), key(3)]);
+        for c in [
+            or3.clone(), or3w.clone(), and3.clone(),
+            CA::And(vec![CA::Leaf(A::Older(10)), or3.clone()]),
+            CA::And(vec![key(0), or3w.clone()]),
+            CA::Or(vec![(9, key(0)), (1, CA::And(vec![key(4), or3.clone()]))]),
+            CA::Or(vec![(1, key(0)), (1, and3.clone())]),
+            CA::Thresh(2, vec![key(0), or3.clone(), key(4)]),
+            CA::Or(vec![(1, key(1))]),
+            CA::And(vec![key(1)]),
+        ] {
+            twin_pols.push(c);
+        }
+    }
     for c in &twin_pols {
         if seen.insert(ca_wire(c)) { n_pol += 1; run.out.count("policy near-twin siblings"); run.all_targets(c, false); }
     }
